@@ -7,6 +7,7 @@
   The companion theorems of the extracted facts (`C17_gen_*`) are in JRV/Properties/C17Gen.lean.
 -/
 import JRV.Model.Wire
+import JRV.Model.WireSession
 import JRV.Lemmas.ByteBody
 
 set_option linter.unusedSimpArgs false
@@ -364,5 +365,79 @@ example : doPost 10 "t" "F" (some 2) [0xC3, 0xA9] [1] (fun d => .returned (some 
     (500, [("Content-type", "t"), ("Content-length", "1")], [0x46]) := by decide +kernel
 example : doPost 10 "t" "F" (some 2) [0xC3, 0xA9] [2] (fun _ => .returned none) =
     (200, [("Content-type", "t"), ("Content-length", "0")], []) := by decide +kernel
+
+/- ====================================================================================================================
+   ONE transport object, a SEQUENCE of responses (JRV.Model.WireSession): "received bodies are reassembled independently
+   of how the bytes are split into reads" for the response that is being read — whatever came through the same transport
+   before it, and however that ended.
+   ==================================================================================================================== -/
+
+/-- INDEPENDENCE OF THE HISTORY.  A transport whose `getparser()` builds a new target for every response, each with a
+    buffer of its own (`C17_gen_getparserFresh`, `C17_gen_targetOwnBuffer`), gives every response of a sequence the
+    outcome it would have had on a transport that never parsed anything: earlier responses — read to their end, or
+    abandoned by a read that raised after any number of chunks had been fed — leave nothing behind. -/
+theorem C17_session_independent (cfg : SessionCfg) (hf : cfg.freshParser = true) (ho : cfg.ownBuffer = true)
+    (st : TState) (rs : List Resp) :
+    session cfg st rs = rs.map parseAlone := by
+  induction rs generalizing st with
+  | nil => rfl
+  | cons r rest ih =>
+    simp only [session, List.map_cons, ih]
+    congr 1
+    simp only [parseStep, startBuffer, hf, ho, Bool.and_self, ↓reduceIte, List.nil_append, parseAlone]
+    cases r.ending <;> rfl
+
+/-- REASSEMBLY IN A SEQUENCE.  The `k`-th response of any sequence, if it is read to its end and its bytes are the
+    UTF-8 encoding of `body`, is returned as `body` — for every chunking of it, every number and kind of responses before
+    and after it, every point at which an earlier one failed. -/
+theorem C17_session_reassembly (cfg : SessionCfg) (hf : cfg.freshParser = true) (ho : cfg.ownBuffer = true)
+    (st : TState) (rs : List Resp) (k : Nat) (r : Resp) (hk : rs[k]? = some r) (hend : r.ending = .eof)
+    (body : String) (hb : r.bytes = toBytes body) :
+    (session cfg st rs)[k]? = some (.ok (.text body)) := by
+  rw [C17_session_independent cfg hf ho, List.getElem?_map, hk]
+  simp only [Option.map_some, parseAlone, hend]
+  cases hc : r.chunks with
+  | nil =>
+    have : toBytes body = [] := by rw [← hb, Resp.bytes, hc]; rfl
+    have hbody : body = "" := by
+      have h1 := fromBytes_toBytes body
+      rw [this] at h1
+      have h2 : fromBytes [] = .ok "" := by decide
+      rw [h2] at h1
+      injection h1 with h1; exact h1.symm
+    rw [hbody, C17_reassembly_client_empty]
+  | cons c cs =>
+    rw [← hc, C17_reassembly_client body r.chunks (by rw [hc]; simp) (by rw [← hb]; rfl)]
+
+/-- A response whose read raises is reported as that error: no text is made up from what had been read, then or later. -/
+theorem C17_session_error_reported (cfg : SessionCfg) (hf : cfg.freshParser = true) (ho : cfg.ownBuffer = true)
+    (st : TState) (rs : List Resp) (k : Nat) (r : Resp) (hk : rs[k]? = some r) (cls : String)
+    (hend : r.ending = .error cls) :
+    (session cfg st rs)[k]? = some (raise cls) := by
+  rw [C17_session_independent cfg hf ho, List.getElem?_map, hk]
+  simp [parseAlone, hend]
+
+/-- Why the two facts matter: a transport that REUSES its target and empties the buffer only in `close()` — or whose
+    targets share one class-level buffer — prepends the bytes of a response that failed in the middle of its body to the
+    next one: `{"a"` read, then the connection is reset; the healthy `{}` that follows is returned as `{"a"{}`. -/
+theorem C17_reused_parser_not_independent :
+    session { freshParser := false, closeResets := true } {}
+        [{ chunks := [toBytes "{\"a\""], ending := .error "ConnectionResetError" }, { chunks := [toBytes "{}"] }]
+      = [raise "ConnectionResetError", .ok (.text "{\"a\"{}")] ∧
+    session { ownBuffer := false, closeResets := true } {}
+        [{ chunks := [toBytes "{\"a\""], ending := .error "ConnectionResetError" }, { chunks := [toBytes "{}"] }]
+      = [raise "ConnectionResetError", .ok (.text "{\"a\"{}")] ∧
+    session {} {}
+        [{ chunks := [toBytes "{\"a\""], ending := .error "ConnectionResetError" }, { chunks := [toBytes "{}"] }]
+      = [raise "ConnectionResetError", .ok (.text "{}")] := by
+  decide +kernel
+
+/- Non-vacuity of `C17_session_reassembly`: third response of four, "é" cut inside the character, after a response that
+   failed with two chunks fed and one that was read to its end. -/
+example : ([{ chunks := [[0x7B], [0x22]], ending := .error "IncompleteRead" }, { chunks := [toBytes "[]"] },
+            { chunks := [[0xC3], [0xA9]] }, { chunks := [], ending := .error "timeout" }] : List Resp)[2]? =
+      some { chunks := [[0xC3], [0xA9]] } ∧
+    ({ chunks := [[0xC3], [0xA9]] } : Resp).bytes = toBytes "é" := by
+  decide +kernel
 
 end JRV.Props
